@@ -1037,7 +1037,8 @@ PROPS["C04"] = dict(
                "_vfunc_k placeholders, table length max(size, last+1); contradicting index / too small size cannot be accepted; slot k of the generated struct is at byte offset k*ptr; "
                "RustExec: the wrapper loads the object's vftable pointer (own first field, or the base sub-object's accessor) and makes exactly one call to the entry in its slot with receiver "
                "first and arguments in order. Correspondence compares vftable struct fields/types, accessor and wrapper bodies; the monitor re-derives slots, placeholder shape, "
-               "slot byte offsets (independent layout calculator) and wrapper call shape from the implementation's files against the description.",
+               "slot byte offsets (independent layout calculator) and wrapper call shape from the implementation's files against the description. C04_whole_build: end to end, the <T>Vftable item "
+               "of the FINAL registry of every accepted collision_free build is the struct built from exactly the converted slot list, final from the moment its owner is resolved.",
     level_note="Trusted: Coq kernel; model validated by this run's correspondence; RustExec.v is the meaning given to the three-line wrapper template (spec side, not rustc); "
                "slot lookup by name assumes distinct function names in one table (duplicates are a C13 matter).",
 )
@@ -1141,7 +1142,7 @@ PROPS["C12"] = dict(
          "1 cyclic module/type graph, 1 absurd-number or misuse pattern; plus API cases (pointer sizes 0,1,2,3,5,16,2^31; a module added twice; the root module replaced; invalid identifiers). Each case runs in a harness process "
          "with a wall-clock bound; distinct = distinct input; every distinct input is non-trivial for this property",
     level_text="Proved in Coq (Properties/C12.v): the resolution loop terminates within 1 + #unresolved rounds for every item-count-preserving schedule (all hook schedules, hence all hash orders); the alignment check's unwraps are unreachable; "
-               "size/offset/lcm arithmetic is checked (no wrapped value). Everything the model cannot exhibit (lexer, syn recursion, format_ident!, time, memory) is decided by the monitor: no generated input may make the real pyxis panic, hang or crash, "
+               "size/offset/lcm arithmetic is checked (no wrapped value); C12_front_half_never_panics / C12_front_half_total: for EVERY input, pointer width and schedule the model's front half (registration, loop, finish_build) ends in accepted / error value / no-progress error, never in a panic or out of fuel. Everything the model cannot exhibit (lexer, syn recursion, format_ident!, time, memory) is decided by the monitor: no generated input may make the real pyxis panic, hang or crash, "
                "both entry points must agree, parse errors must carry file:line:column inside the file, and for inputs that parse the model must agree on the verdict class. Known findings: raw identifiers (F6f), pointer size 0 through the API (F6g), invalid identifiers through the API (F6i).",
     level_note="Trusted: Coq kernel; model validated by this run's correspondence; the process-level bound (10 s per case) as the definition of 'hang'; only the debug profile is exercised (overflow checks on).",
     technique="Coq termination/no-panic proofs on the model + bounded-process robustness monitor on the real implementation",
@@ -1154,7 +1155,8 @@ PROPS["C20"] = dict(
          "and 1..3 applicable rewrites from the family (address explicit/implicit, gap <-> address, natural size, index explicit/implicit, enum value explicit/implicit, other number spellings, reordering of definitions); both sides are built by the real "
          "pyxis and every output file is compared by content hash; non-trivial = accepted and the two texts differ",
     level_text="Proved in Coq (Properties/C20.v), each as 'the model computes the same result': explicit address = natural address, size attribute = natural size, index = natural slot, enum value = implicit value. "
-               "Gap-vs-address, number spelling and reordering have no theorem (partial); they, and all the others again on the real code, are decided by the monitor: original and rewritten description built by the real pyxis, outputs byte-identical.",
+               "Gap <-> address: the placement fold ends at the same offset with region lists that differ only in how the unnamed gap region was created, and the naming pass maps both to the same regions (C20_gap_is_address, C20_naming_ignores_gap_spelling). "
+               "Number spelling (lexer) and reordering (resolution part: C09 theorem; emitter sorting not formalised) have no theorem here (partial); they, and all the others again on the real code, are decided by the monitor: original and rewritten description built by the real pyxis, outputs byte-identical.",
     level_note="Trusted: Coq kernel; model validated by this run's correspondence (verdict, file set, registry on both sides); byte identity is observed on the implementation (content hash of every output file).",
 )
 
@@ -1165,10 +1167,12 @@ PROPS["C09"] = dict(
          "resolution order when <= 5 items (sampled beyond) plus random full schedules through the cfg(pyxis_verif) hook (24 quick / 120 thorough schedules per input), 4 / 8 builds without the hook (real hash seeds, same and fresh processes), "
          "and up to 6 / 24 permutations of module-addition order through the API; all outcomes (verdict, no-progress set, content hash of every output file) must coincide; non-trivial = accepted input with >= 2 user items",
     level_text="Proved in Coq (Properties/C09.v): order-independence of any worklist loop of pyxis's shape under monotone attempts (Confluence.v: outcome class and final state equal for every pair of permutation-valued order functions, any number of items); "
-               "name resolution depends only on the key set; known sizes/alignments never change as more items resolve. Not proved: that the model's whole attempt is monotone (it was not at the pinned commit: F7a repaired, F7b listed) -- so the claim is partial and the "
+               "C09_attempt_monotone: the model's real attempt satisfies M1+M2 under two decidable side conditions (collision_free: no input item named like a generated <T>Vftable struct; clean: no module/use path or type name ends in Vftable -- without them the claim is false of pyxis itself: open findings F4b, F7b); "
+               "C09_pyxis_resolve_order_independent: hence for EVERY input meeting them and ANY two permutation-valued order functions (all hook schedules: C09_hook_schedules_are_permutations) the whole front half ends in the same verdict class with the same resolved value for every input item (simulation of resolve_loop by the abstract loop, OrderIndep.v). "
+               "Not proved: that the emitter writes the same files for two accepted final states that agree on all input items -- so the claim is partial and the "
                "property is decided on the real code by the monitor: schedule enumeration through the hook, module-order permutations, repeated and fresh-process builds, byte comparison.",
     level_note="Trusted: Coq kernel; the 10-line hook in TypeRegistry::unresolved (orders by a caller-chosen permutation of the sorted paths; with the guard off the code is unchanged); model validated per schedule by this run's correspondence.",
-    technique="Coq proof of abstract confluence + registry-read monotonicity; exhaustive/sampled schedule enumeration on the real implementation through a cfg-guarded hook",
+    technique="Coq proof of confluence (abstract) + monotonicity of the model's attempt + simulation (order independence of the model's front half); exhaustive/sampled schedule enumeration on the real implementation through a cfg-guarded hook",
 )
 
 PROPS["C10"] = dict(
@@ -1181,7 +1185,7 @@ PROPS["C10"] = dict(
          "the expected set of unresolvable items is computed from the graph (least fixpoint of 'resolvable'); non-trivial = graph with >= 3 items",
     level_text="Proved in Coq (Properties/C10.v): a self-supporting set of items (each has an undefined field-type name or depends by value on a member) never resolves, and a no-progress end state is self-supporting "
                "(Confluence.v, abstract, any number of items); the loop needs at most 1 + #items rounds (C12); pointer sizes never read the pointee; a field with an undefined type defers, an undefined parameter or return type rejects (C05); "
-               "nothing is dropped: every declared parameter and the return type reach the emitted signature. The instantiation of the abstract theory with the model's attempt (N1/N2) is not proved (partial). "
+               "nothing is dropped: every declared parameter and the return type reach the emitted signature. For the model's real attempt: N1 (C10_attempt_N1), hence C10_stuck_set_never_accepted (an undefined field type or a by-value cycle keeps every schedule from accepting; C10_cycle_example) and C10_stuck_set_is_order_independent (the no-progress verdict and its item set do not depend on the schedule). N2 (every deferral has such a cause) is not proved -- it is false as stated when a size overflows, where model and pyxis defer forever -- so the converse direction is partial. "
                "The monitor decides the property on the real code against the graph-theoretic expectation: accepted iff all names defined and by-value embedding acyclic; the no-progress error lists exactly the unresolvable items; accepted builds contain every item.",
     level_note="Trusted: Coq kernel; model validated by this run's correspondence (verdict, no-progress set, items, signatures); the expectation is computed by the generator from the graph it drew.",
 )
@@ -1193,7 +1197,7 @@ PROPS["C19"] = dict(
          "one change outside the closure (a new module, removal of an unimported module, a type / enum / singleton type added to an unrelated module); both sets built by the real pyxis; the observed module's file compared by content hash. "
          "10% of the pairs are *related* changes (sanity: they must be able to alter the file). non-trivial = both accepted and the change is unrelated",
     level_text="Proved in Coq (Properties/C19.v): name lookup consults the registry only at scope-derived paths (so entries elsewhere are invisible to it); known sizes/alignments are stable under registry extension; a module's file is assembled only from its own paths/values/blocks (C14). "
-               "The end-to-end two-build statement is not proved (partial, depends on C09's unproved attempt-monotonicity); the monitor decides it on the real code by byte comparison of the observed module's file across unrelated changes.",
+               "C19_locality_abstract: for any two loops of pyxis's shape, the second over more items, whose attempts agree on the first's items (+ M1), accepted builds give the first's items the same values. The frame lemma instantiating it for two concrete input sets, and the emitter, are not proved (partial); the monitor decides it on the real code by byte comparison of the observed module's file across unrelated changes.",
     level_note="Trusted: Coq kernel; model validated by this run's correspondence on both sides of every pair; closure computed by the generator from the use lines it wrote.",
 )
 
@@ -1224,7 +1228,8 @@ PROPS["C03"] = dict(
                "check) accepts exactly the realisable descriptions (C03Core.realisable, written from the property text). "
                "The implementation's own verdict is compared with the *spec* (realisableb, reflected in Coq) on every "
                "enumerated description -- exhaustively on the stated small scope -- so the check does not go through the model at all for the iff; "
-               "the refinement model -> core is checked on a sample, not proved (theorem name carries _partial).",
+               "C03_model_decision_refines_core / C03_model_accepts_iff_realisable: the model's decision code (placement fold, size padding, naming, alignment checks) returns Ok exactly when the core accepts, i.e. iff the description is realisable; "
+               "the wrapper around it (attribute scanning, statement processing) is compared with the core on a sample of 3000 per run.",
     level_note="Trusted: Coq kernel; the spec C03Core.realisable as the reading of the property text (two interpretations fixed in DESIGN.md section 7: "
                "zero-length arrays keep their place but are not members; 'sole member' counts gaps); sizes/alignments of built-in types per pointer width are inputs "
                "computed by tools/c03.py; field alignments are powers of two (wf_fields).",
@@ -1238,9 +1243,9 @@ PROPS["C01"].update(
                "(C01 theorems in coq/Properties/C01.v). The model is tied to /repo on every run by the correspondence "
                "check (same inputs through real pyxis and the extracted model, struct fields/types/repr compared) and "
                "the declared offsets are re-derived from the implementation's own emitted files by an independent layout "
-               "calculator (monitor).",
+               "calculator (monitor). C01_whole_build: the same end to end -- every struct of every accepted build (any schedule, width, modules; input collision_free, decidable, false without it: F4b), with the sizes of the FINAL registry.",
     level_note="Trusted: Coq kernel; the hand-written model (validated by correspondence on generated inputs only); RustLayout.v as "
-               "a transcription of the Rust Reference (validated against rustc by the layout oracle in the thorough tier); "
+               "a transcription of the Rust Reference (validated by the independent calculator tools/pylayout.py on the real files and, for sizes at width 8, by rustc through C13's size-check transmutes; no rustc layout oracle at width 4); "
                "by-value void fields are a known finding class (F9) and excluded.",
 )
 PROPS["C02"].update(
@@ -1248,9 +1253,9 @@ PROPS["C02"].update(
                "region sizes, equals a declared #[size(N)], and the Rust Reference layout of the emitted "
                "repr(C, align(A)) / repr(C, packed) struct has exactly the resolved size and alignment. Correspondence compares the "
                "registry (size, alignment per item, read through the public API), repr attributes and size-check literals; "
-               "the monitor recomputes every emitted item's layout from the implementation's files.",
-    level_note="Trusted: Coq kernel; hand-written model validated by the correspondence of this run; RustLayout.v vs rustc "
-               "validated by oracle, not proved; field sizes are the registry's (nested items by induction over resolution order).",
+               "the monitor recomputes every emitted item's layout from the implementation's files. C02_whole_build / C02_items_come_from_attempts / C02_sizes_never_change: end to end for every accepted collision_free build -- every item comes from one attempt whose known sizes are unchanged in the final registry.",
+    level_note="Trusted: Coq kernel; hand-written model validated by the correspondence of this run; RustLayout.v is a transcription of the Reference "
+               "(checked against pylayout on the real files and against rustc's transmute size checks in C13 at width 8), not proved against rustc.",
 )
 
 # ------------------------------------------------------------------------------------------------
